@@ -14,11 +14,13 @@ use crate::{
     transport::{
         interface::WriteMessage,
         types::{
-            CacheChange, ChangeKind, DurabilityKind, ENTITYID_UNKNOWN, EntityId, Guid, GuidPrefix,
+            CacheChange, ChangeKind, DurabilityKind, EntityId, Guid, GuidPrefix,
             ReaderProxy, ReliabilityKind, SequenceNumber,
         },
     },
 };
+#[cfg(test)]
+use crate::transport::types::ENTITYID_UNKNOWN;
 use alloc::vec::Vec;
 
 pub struct RtpsStatefulWriter {
@@ -248,7 +250,7 @@ impl RtpsStatefulWriter {
                     let info_dst =
                         InfoDestinationSubmessage::new(reader_proxy.remote_reader_guid().prefix());
                     let gap_submessage = GapSubmessage::new(
-                        ENTITYID_UNKNOWN,
+                        reader_proxy.remote_reader_guid().entity_id(),
                         writer_id,
                         change_seq_num,
                         SequenceNumberSet::new(change_seq_num + 1, []),
@@ -353,10 +355,10 @@ impl RtpsReaderProxy {
                 message_writer.write_message(rtps_message.buffer(), self.unicast_locator_list());
 
                 self.set_highest_sent_seq_num(next_unsent_change_seq_num);
-            } else if let Some(cache_change) = changes
-                .iter()
-                .find(|cc| cc.sequence_number == next_unsent_change_seq_num)
-            {
+            } else if let Some(cache_change) = changes.iter().find(|cc| {
+                cc.sequence_number == next_unsent_change_seq_num
+                    && next_unsent_change_seq_num > self.first_relevant_sample_seq_num()
+            }) {
                 let number_of_fragments = cache_change
                     .data_value
                     .len()
@@ -399,7 +401,7 @@ impl RtpsReaderProxy {
                 }
             } else {
                 let gap_submessage = GapSubmessage::new(
-                    ENTITYID_UNKNOWN,
+                    self.remote_reader_guid().entity_id(),
                     writer_id,
                     next_unsent_change_seq_num,
                     SequenceNumberSet::new(next_unsent_change_seq_num + 1, []),
@@ -540,7 +542,7 @@ impl RtpsReaderProxy {
                             InfoDestinationSubmessage::new(self.remote_reader_guid().prefix());
 
                         let gap_submessage = GapSubmessage::new(
-                            ENTITYID_UNKNOWN,
+                            self.remote_reader_guid().entity_id(),
                             writer_id,
                             next_unsent_change_seq_num,
                             SequenceNumberSet::new(next_unsent_change_seq_num + 1, []),
@@ -660,7 +662,7 @@ impl RtpsReaderProxy {
                         InfoDestinationSubmessage::new(self.remote_reader_guid().prefix());
 
                     let gap_submessage = GapSubmessage::new(
-                        ENTITYID_UNKNOWN,
+                        self.remote_reader_guid().entity_id(),
                         writer_id,
                         next_requested_change_seq_num,
                         SequenceNumberSet::new(next_requested_change_seq_num + 1, []),
